@@ -43,12 +43,15 @@ Definition isLeaf (e : elem) : bool := match e_children e with [] => true | _ =>
 Inductive mkind := KDel | KIns.
 Record mop := mkMop { m_kind : mkind; m_old : Z; m_new : Z }.
 
-(** pyMod: (x + y) % y with Go's truncating remainder (negative for x < -y). *)
-Definition pyMod (x y : Z) : Z := Z.rem (x + y) y.
+(** pyMod: ((x % y) + y) % y with Go's truncating remainder: in [0, y) for every x when y > 0
+    (before b1a6767 it was (x + y) % y, negative for x < -y). *)
+Definition pyMod (x y : Z) : Z := Z.rem (Z.rem x y + y) y.
 
-Definition aget (c : list Z) (i : Z) : res Z := index "patch.diffInternal:index" c i.
+(** accesses to the index arrays c, d (g, p) of diffInternal *)
+Definition cd_site : string := "patch.diffInternal:index of c/d".
+Definition aget (c : list Z) (i : Z) : res Z := index cd_site c i.
 Definition aset (c : list Z) (i v : Z) : res (list Z) :=
-  if (i <? 0) || (lenZ c <=? i) then Panic "patch.diffInternal:index"
+  if (i <? 0) || (lenZ c <=? i) then Panic cd_site
   else Ok (takeZ i c ++ v :: dropZ (i + 1) c).
 
 (** e[lo:hi]; the model panics when hi exceeds the length (Go allows up to the capacity; the
